@@ -62,6 +62,11 @@ pub struct Acc {
     pub abandoned_samples: Vec<String>,
     pub samples: Vec<serde_json::Value>,
     pub violations: Vec<Case>,
+    /// violations that match a `known` entry of known_findings.json: counted, one sample kept
+    #[serde(default)]
+    pub known_hits: u64,
+    #[serde(default)]
+    pub known_samples: Vec<Case>,
     /// (run index, digest) for the runs picked for the determinism re-check
     pub recheck: Vec<(u64, u64)>,
     #[serde(skip)]
@@ -116,6 +121,12 @@ impl Acc {
             }
         }
         self.violations.extend(o.violations);
+        self.known_hits += o.known_hits;
+        for c in o.known_samples {
+            if !self.known_samples.iter().any(|k| k.fail.as_ref().map(|f| &f.class) == c.fail.as_ref().map(|f| &f.class)) {
+                self.known_samples.push(c);
+            }
+        }
         self.recheck.extend(o.recheck);
         self.digests.extend(o.digests);
         self.state_count += o.state_count;
@@ -234,6 +245,7 @@ pub fn worker_main(engine: &dyn Engine, args: &[String]) -> i32 {
         }
     }
     let mut acc = Acc::default();
+    let known = load_known();
     let stop_on_violation = only.is_none();
     let indices: Vec<u64> = match only {
         Some(v) => v,
@@ -243,6 +255,20 @@ pub fn worker_main(engine: &dyn Engine, args: &[String]) -> i32 {
         track_line(1, &format!("R {}", idx));
         acc.counters.insert("last_digest".into(), 0);
         engine.run_one(seed, idx, tier, &mut acc);
+        // a violation that is a recorded known finding does not stop the exploration
+        let mut keep = Vec::new();
+        for v in acc.violations.drain(..) {
+            let is_known = v.fail.as_ref().map_or(false, |f| known_match(&known, &v.property, f).is_some());
+            if is_known {
+                acc.known_hits += 1;
+                if acc.known_samples.is_empty() {
+                    acc.known_samples.push(v);
+                }
+            } else {
+                keep.push(v);
+            }
+        }
+        acc.violations = keep;
         if recheck_every > 0 && recheck_pick(seed, idx, recheck_every) {
             let d = acc.counters.get("last_digest").copied().unwrap_or(0);
             acc.recheck.push((idx, d));
@@ -508,6 +534,10 @@ pub struct KnownFinding {
     pub commit: String,
 }
 
+pub fn known_match<'a>(known: &'a [KnownFinding], prop: &str, f: &FailRec) -> Option<&'a KnownFinding> {
+    known.iter().find(|k| k.status == "known" && k.property == prop && (k.class.is_empty() || k.class == f.class) && (k.msg_contains.is_empty() || f.msg.contains(&k.msg_contains)))
+}
+
 pub fn load_known() -> Vec<KnownFinding> {
     let p = Path::new(VERIF_DIR).join("known_findings.json");
     match std::fs::read_to_string(&p) {
@@ -645,6 +675,8 @@ pub fn check_main(engine: &dyn Engine, tier: Tier) -> i32 {
     viol.sort_by_key(|c| c.run);
     let n_viol_found = viol.len();
     viol.truncate(3);
+    // one sample per known finding, reported as KNOWN-FINDING (with a minimised replay file)
+    viol.extend(total.known_samples.drain(..));
     let mut reported = 0;
     let mut known_hits = 0;
     let replays = out_dir().join("replays");
@@ -670,10 +702,10 @@ pub fn check_main(engine: &dyn Engine, tier: Tier) -> i32 {
         let name = format!("{}-{}-{}.json", prop, fin.seed, digest_str(&text));
         let path = replays.join(&name);
         let _ = std::fs::write(&path, &text);
-        let k = known.iter().find(|k| k.status == "known" && k.property == prop && (k.class.is_empty() || k.class == f.class) && (k.msg_contains.is_empty() || f.msg.contains(&k.msg_contains)));
+        let k = known_match(&known, prop, &f);
         if let Some(k) = k {
             known_hits += 1;
-            lines.push(format!("KNOWN-FINDING: property={} {}", prop, k.what));
+            lines.push(format!("KNOWN-FINDING: property={} {} (replay={})", prop, k.what, path.display()));
         } else {
             reported += 1;
             eprintln!("[{}] violation [{}] at step {}: {}", prop, f.class, f.step, f.msg);
@@ -719,6 +751,7 @@ pub fn check_main(engine: &dyn Engine, tier: Tier) -> i32 {
     coverage.insert("workers".into(), j(workers));
     coverage.insert("violations_found_before_cap".into(), j(n_viol_found as u64));
     coverage.insert("known_findings_matched".into(), j(known_hits));
+    coverage.insert("known_finding_occurrences".into(), j(total.known_hits));
     if let Some(n) = &info.exhaustive_note {
         coverage.insert("exhaustive_parts".into(), n.clone().into());
     }
